@@ -120,18 +120,25 @@ pub struct BbCase {
 	/// the CA forgets the account at the k-th newOrder (0: never): re-registration goes through the limiter too
 	#[serde(default)]
 	pub forget_at_order: usize,
+	/// kind of storm i: badNonce (default) | unanswered (request read, connection closed) | http-503
+	#[serde(default)]
+	pub storm_kinds: Vec<String>,
+	/// > 0: after the first life of the daemon the account key type is edited and the CA refuses the key roll-over this many times
+	#[serde(default)]
+	pub key_refusals: usize,
 }
 
 fn bb_strategy() -> impl Strategy<Value = BbCase> {
 	let limit = prop_oneof![(4usize..=12, Just(1u64)), (8usize..=20, Just(2u64)), (12usize..=20, Just(3u64))];
 	let pos = proptest::sample::select(vec![Pos::NewOrder, Pos::Authz(0), Pos::Chall(0), Pos::Finalize, Pos::Cert]);
 	let pos2 = pos.clone();
-	let broad = (proptest::collection::vec(limit, 1..=2), 1usize..=4, proptest::collection::vec((pos, 2usize..=9), 0..=2), 0usize..=4, prop_oneof![1 => Just(0usize), 1 => 1usize..=3]).prop_map(|(limits, n_certs, storms, long_polls, forget_at_order)| BbCase { limits, n_certs, storms, long_polls, forget_at_order });
+	let kind = || proptest::collection::vec(prop_oneof![3 => Just("badNonce"), 1 => Just("unanswered"), 1 => Just("http-503")].prop_map(|s| s.to_string()), 2);
+	let broad = (proptest::collection::vec(limit, 1..=2), 1usize..=4, proptest::collection::vec((pos, 2usize..=9), 0..=2), 0usize..=4, prop_oneof![1 => Just(0usize), 1 => 1usize..=3], kind()).prop_map(|(limits, n_certs, storms, long_polls, forget_at_order, storm_kinds)| BbCase { limits, n_certs, storms, long_polls, forget_at_order, storm_kinds, key_refusals: 0 });
 	// one request more than the limit allows is only visible when the limit is small: tight limits around the rarely taken paths
 	// (account forgotten by the CA and registered again, short retry storms)
 	let tight_limit = proptest::sample::select(vec![(1usize, 1u64), (2, 1), (3, 1), (2, 2), (3, 2)]);
-	let tight = (tight_limit, 1usize..=2, proptest::collection::vec((pos2, 2usize..=3), 0..=1), 0usize..=1, 0usize..=2).prop_map(|(l, n_certs, storms, long_polls, f)| BbCase { limits: vec![l], n_certs, storms, long_polls, forget_at_order: f.min(n_certs) });
-	prop_oneof![1 => broad, 1 => tight]
+	let tight = (tight_limit, 1usize..=2, proptest::collection::vec((pos2, 2usize..=3), 0..=1), 0usize..=1, 0usize..=2, kind(), prop_oneof![1 => Just(0usize), 1 => 1usize..=3]).prop_map(|(l, n_certs, storms, long_polls, f, storm_kinds, key_refusals)| BbCase { limits: vec![l], n_certs, storms, long_polls, forget_at_order: f.min(n_certs), storm_kinds, key_refusals });
+	prop_oneof![2 => broad, 3 => tight]
 }
 
 fn run_bb_once(case: &BbCase) -> Result<Result<Vec<String>, (String, String)>, String> {
@@ -140,64 +147,122 @@ fn run_bb_once(case: &BbCase) -> Result<Result<Vec<String>, (String, String)>, S
 	let lay = Layout::new(&dir);
 	let coll = HookCollector::start(&dir)?;
 	let map: Vec<_> = (0..case.n_certs).map(|i| (bb::ident_key(&[("dns".to_string(), format!("r{i}.c09.test"))]), format!("c{i}"))).collect();
-	let mut faults: Vec<Fault> = case.storms.iter().map(|(p, k)| Fault { pos: p.clone(), nth: 1, repeat: *k, action: Action::Acme("badNonce".into()), cert: None }).collect();
+	let kind_of = |i: usize| case.storm_kinds.get(i).map(|s| s.as_str()).unwrap_or("badNonce");
+	let mut faults: Vec<Fault> = case
+		.storms
+		.iter()
+		.enumerate()
+		.map(|(i, (p, k))| Fault {
+			pos: p.clone(),
+			nth: 1,
+			repeat: *k,
+			action: match kind_of(i) {
+				// the request is read and the connection closed without an answer / answered 503: the attempt fails and is repeated
+				"unanswered" => Action::DropAfterRead,
+				"http-503" => Action::NonJson(503),
+				_ => Action::Acme("badNonce".into()),
+			},
+			cert: None,
+		})
+		.collect();
+	let failing_storms = (0..case.storms.len()).any(|i| kind_of(i) != "badNonce");
 	if case.forget_at_order > 0 && case.forget_at_order <= case.n_certs {
 		faults.insert(0, Fault { pos: Pos::NewOrder, nth: case.forget_at_order, repeat: 1, action: Action::ForgetAccount, cert: None });
 	}
 	let plan = CaPlan { faults, polls_authz: 1 + case.long_polls, polls_valid: 1 + case.long_polls, ..CaPlan::default() };
 	let ca = MockCa::start(plan, map)?;
-	let cfg = json!({
-		"global": lay.global(),
-		"rate-limit": case.limits.iter().enumerate().map(|(i, (n, p))| json!({"name": format!("l{i}"), "number": n, "period": format!("{p}s")})).collect::<Vec<_>>(),
-		"endpoint": [{"name": "e1", "url": ca.directory_url(), "tos_agreed": true, "rate_limits": (0..case.limits.len()).map(|i| format!("l{i}")).collect::<Vec<_>>()}],
-		"account": [{"name": "a1", "contacts": [{"mailto": "a@c09.test"}]}],
-		"hook": bb::std_hooks(&coll.sock),
-		"certificate": (0..case.n_certs).map(|i| json!({"name": format!("c{i}"), "account": "a1", "endpoint": "e1", "key_type": "ecdsa-p256",
-			"hooks": ["rec-http-01", "rec-http-01-clean", "rec-post"], "env": {bb::CERT_ENV: format!("c{i}")},
-			"identifiers": [{"dns": format!("r{i}.c09.test"), "challenge": "http-01"}]})).collect::<Vec<_>>(),
-	});
-	let cfg_path = bb::write_config(&dir, "acmed.toml", &cfg);
-	let mut daemon = Daemon::spawn(&bb::daemon_opts(&acmed, &dir, &cfg_path, "run"))?;
+	let mk_cfg = |key_type: &str| {
+		json!({
+			"global": lay.global(),
+			"rate-limit": case.limits.iter().enumerate().map(|(i, (n, p))| json!({"name": format!("l{i}"), "number": n, "period": format!("{p}s")})).collect::<Vec<_>>(),
+			"endpoint": [{"name": "e1", "url": ca.directory_url(), "tos_agreed": true, "rate_limits": (0..case.limits.len()).map(|i| format!("l{i}")).collect::<Vec<_>>()}],
+			"account": [{"name": "a1", "key_type": key_type, "contacts": [{"mailto": "a@c09.test"}]}],
+			"hook": bb::std_hooks(&coll.sock),
+			"certificate": (0..case.n_certs).map(|i| json!({"name": format!("c{i}"), "account": "a1", "endpoint": "e1", "key_type": "ecdsa-p256",
+				"hooks": ["rec-http-01", "rec-http-01-clean", "rec-post"], "env": {bb::CERT_ENV: format!("c{i}")},
+				"identifiers": [{"dns": format!("r{i}.c09.test"), "challenge": "http-01"}]})).collect::<Vec<_>>(),
+		})
+	};
+	let n = case.n_certs;
+	let d = format!("{case:?}");
 	// a successful post-operation hook is held (that certificate is done); a failed one is let through so that the certificate is tried again
 	let done = |r: &crate::daemon::HookRecord| bb::is_post(r) && r.arg("is_success") == Some("true");
-	coll.hold_when(Box::new(move |r, _| done(r)));
-	let n = case.n_certs;
-	let ok = coll.wait_until(&|r| r.iter().filter(|x| done(x)).count() >= n, Duration::from_secs(180), &mut || daemon.state() != ProcState::Alive);
-	let recs = coll.records();
-	let snap = ca.snapshot();
-	let tail = daemon.stderr_tail(12);
-	let st = daemon.state();
-	daemon.kill();
-	coll.release();
-	bb::cleanup(&dir);
-	let d = format!("{case:?}");
-	if st != ProcState::Alive {
-		return Ok(Err(("C09:daemon-died".into(), format!("{st:?}; {d}\n{tail}"))));
-	}
-	if !ok {
-		return Ok(Err(("C09:request-withheld".into(), format!("{} of {n} certificates finished within 180 s under limits that permit it; {d}\n{tail}", recs.iter().filter(|x| done(x)).count()))));
-	}
-	// when the CA forgets the account, orders of the other certificates that are in flight under the old account URL are refused: those
-	// attempts fail by the CA's doing and are repeated; any other failure is not expected here
-	let by_forgetting = |r: &crate::daemon::HookRecord| case.forget_at_order > 0 && r.arg("status").map(|s| s.contains("account forgotten") || s.contains("accountDoesNotExist")).unwrap_or(false);
-	if let Some(r) = recs.iter().find(|r| bb::is_post(r) && r.arg("is_success") != Some("true") && !by_forgetting(r)) {
-		return Ok(Err(("C09:issuance-failed".into(), format!("{:?}; {d}\n{tail}", r.arg("status")))));
-	}
-	let arr: Vec<u64> = snap.log.iter().map(|l| l.t_ns).collect();
-	let mut tight = false;
-	for (nl, p) in case.limits.iter() {
-		let pns = p * 1_000_000_000;
-		for i in 0..arr.len().saturating_sub(*nl) {
-			let span = arr[i + nl] - arr[i];
-			if span + 250_000_000 < pns {
-				return Ok(Err(("C09:limit-exceeded".into(), format!("limit {nl} per {p} s: requests #{i}..#{} ({} .. {}) reached the CA within {:.3} s; {d}", i + nl, snap.log[i].pos.name(), snap.log[i + nl].pos.name(), span as f64 / 1e9))));
+	// failures that are the CA's doing: orders in flight under an account URL the CA has forgotten, unanswered / 503 requests of a
+	// storm, a refused key roll-over
+	let excused = |r: &crate::daemon::HookRecord, second_run: bool| {
+		let st = r.arg("status").unwrap_or("");
+		(case.forget_at_order > 0 && (st.contains("account forgotten") || st.contains("accountDoesNotExist"))) || failing_storms || (second_run && case.key_refusals > 0)
+	};
+	let mut segments: Vec<(usize, usize)> = vec![];
+	let mut classes: Vec<String> = vec![];
+	let runs = if case.key_refusals > 0 { 2 } else { 1 };
+	let mut verdict: Option<(String, String)> = None;
+	for run_no in 0..runs {
+		let log_from = ca.snapshot().log.len();
+		if run_no == 1 {
+			// second life of the daemon: the account key type was edited, the CA refuses the roll-over k times; every certificate is due again
+			for i in 0..n {
+				let _ = std::fs::remove_file(lay.certs.join(format!("c{i}_ecdsa-p256.crt.pem")));
 			}
-			if span < pns + 400_000_000 {
-				tight = true;
+			let k = case.key_refusals;
+			ca.set_plan(&|p| p.faults.push(Fault { pos: Pos::KeyChange, nth: 1, repeat: k, action: Action::Acme("unauthorized".into()), cert: None }));
+		}
+		let cfg_path = bb::write_config(&dir, "acmed.toml", &mk_cfg(if run_no == 0 { "ecdsa-p256" } else { "ecdsa-p384" }));
+		let mut daemon = Daemon::spawn(&bb::daemon_opts(&acmed, &dir, &cfg_path, &format!("run{run_no}")))?;
+		coll.hold_when(Box::new(move |r, _| done(r)));
+		let want = n * (run_no + 1);
+		let ok = coll.wait_until(&|r| r.iter().filter(|x| done(x)).count() >= want, Duration::from_secs(180), &mut || daemon.state() != ProcState::Alive);
+		let recs = coll.records();
+		let tail = daemon.stderr_tail(12);
+		let st = daemon.state();
+		daemon.kill();
+		coll.release_one();
+		segments.push((log_from, ca.snapshot().log.len()));
+		if st != ProcState::Alive {
+			verdict = Some(("C09:daemon-died".into(), format!("{st:?}; {d}\n{tail}")));
+			break;
+		}
+		if !ok {
+			verdict = Some(("C09:request-withheld".into(), format!("{} of {want} certificates finished within 180 s under limits that permit it (run {run_no}); {d}\n{tail}", recs.iter().filter(|x| done(x)).count())));
+			break;
+		}
+		if let Some(r) = recs.iter().find(|r| bb::is_post(r) && !done(r) && !excused(r, run_no == 1)) {
+			verdict = Some(("C09:issuance-failed".into(), format!("{:?}; {d}\n{tail}", r.arg("status"))));
+			break;
+		}
+	}
+	coll.release();
+	let snap = ca.snapshot();
+	bb::cleanup(&dir);
+	if let Some(v) = verdict {
+		return Ok(Err(v));
+	}
+	// the limiter lives in the daemon process: each life of the daemon is judged on its own
+	let mut tight = false;
+	for (from, to) in segments.iter() {
+		let log = &snap.log[*from..*to];
+		let arr: Vec<u64> = log.iter().map(|l| l.t_ns).collect();
+		for (nl, p) in case.limits.iter() {
+			let pns = p * 1_000_000_000;
+			for i in 0..arr.len().saturating_sub(*nl) {
+				let span = arr[i + nl] - arr[i];
+				if span + 250_000_000 < pns {
+					return Ok(Err(("C09:limit-exceeded".into(), format!("limit {nl} per {p} s: requests #{i}..#{} ({} .. {}) reached the CA within {:.3} s; {d}", i + nl, log[i].pos.name(), log[i + nl].pos.name(), span as f64 / 1e9))));
+				}
+				if span < pns + 400_000_000 {
+					tight = true;
+				}
 			}
 		}
 	}
-	Ok(Ok(vec![format!("certs={n}"), format!("requests~{}", arr.len() / 20 * 20), if tight { "limiter-was-the-brake".into() } else { "slack".into() }]))
+	classes.extend([format!("certs={n}"), format!("requests~{}", snap.log.len() / 20 * 20), if tight { "limiter-was-the-brake".into() } else { "slack".into() }]);
+	if failing_storms {
+		classes.push("unanswered-or-503-storm".into());
+	}
+	if case.key_refusals > 0 {
+		classes.push("refused-key-roll-over".into());
+	}
+	Ok(Ok(classes))
 }
 
 fn exec_bb(case: &BbCase) -> Outcome {
@@ -217,7 +282,7 @@ fn exec_bb(case: &BbCase) -> Outcome {
 }
 
 pub fn run(ctx: &Ctx, rep: &mut Report) {
-	rep.rule = "pr: limit sets (1..3 limits, n in 1..20, period 1..10 s) and arrival patterns (burst after idle, steady, on/off) of 10..80 calls to the daemon's limiter in the probe, which reports the monotonic instant before each call and after each return. Sound bracket: for every limit (n,p) and i, return[i+n] - call[i] >= p. Bounded liveness: each return <= (earliest instant the limits permit given the earlier returns) + max(3 s, p_max). bb: 1..4 certificates on one rate-limited endpoint (half of the cases with a tight limit of 1..3 requests per 1..2 s, where a single unaccounted request shows), badNonce retry storms, long polls and the CA forgetting the account at the k-th newOrder (re-registration goes through the same limiter) (in-attempt waits are 0 under the feature, so the limiter is the only brake): arrival times of ALL requests at the CA satisfy arr[i+n]-arr[i] >= p - 250 ms and every issuance completes. A failing timing case is re-run twice before it counts. Non-trivial = the pattern demands more than n calls within p (pr) / some window was within 400 ms of the limit (bb).".into();
+	rep.rule = "pr: limit sets (1..3 limits, n in 1..20, period 1..10 s) and arrival patterns (burst after idle, steady, on/off) of 10..80 calls to the daemon's limiter in the probe, which reports the monotonic instant before each call and after each return. Sound bracket: for every limit (n,p) and i, return[i+n] - call[i] >= p. Bounded liveness: each return <= (earliest instant the limits permit given the earlier returns) + max(3 s, p_max). bb: 1..4 certificates on one rate-limited endpoint (half of the cases with a tight limit of 1..3 requests per 1..2 s, where a single unaccounted request shows), retry storms (runs of badNonce answers, of requests left unanswered, or of 503 answers), long polls, a second life of the daemon in which the CA refuses a key roll-over 1..3 times, and the CA forgetting the account at the k-th newOrder (re-registration goes through the same limiter) (in-attempt waits are 0 under the feature, so the limiter is the only brake): arrival times of ALL requests at the CA satisfy arr[i+n]-arr[i] >= p - 250 ms and every issuance completes. A failing timing case is re-run twice before it counts. Non-trivial = the pattern demands more than n calls within p (pr) / some window was within 400 ms of the limit (bb).".into();
 	rep.assume("black-box bound has 250 ms slack for send latency; the tight bound is the in-crate one");
 	run_replays::<PrCase>(ctx, rep, "pr", &exec_pr);
 	run_replays::<BbCase>(ctx, rep, "bb", &exec_bb);
@@ -225,5 +290,5 @@ pub fn run(ctx: &Ctx, rep: &mut Report) {
 		return;
 	}
 	run_prop(ctx, rep, "pr", &pr_strategy(ctx.tier.pick(9.0, 25.0)), ctx.tier.pick(64, 600), 16, &exec_pr);
-	run_prop(ctx, rep, "bb", &bb_strategy(), ctx.tier.pick(12, 80), 6, &exec_bb);
+	run_prop(ctx, rep, "bb", &bb_strategy(), ctx.tier.pick(16, 100), 8, &exec_bb);
 }
